@@ -106,8 +106,10 @@ func VerifyFunc(ld *Loader, pkg *Pkg, key string) (res *FuncResult) {
 	vc.strLits = map[string]Term{}
 	vc.revealAll = ct.Reveal
 	res.VC = vc
-	if ct.Trusted || ct.Havoc || ct.Inline {
-		// havoc contracts promise nothing, so there is nothing to verify
+	if ct.Trusted || ct.Inline || (ct.Havoc && len(ct.Ensures) == 0 && len(ct.Returns) == 0) {
+		// havoc contracts promise nothing, so there is nothing to verify; a
+		// havoc contract that does promise something (ensures / return
+		// clauses) is checked against the body like any other
 		return res
 	}
 	fd := pkg.FindFunc(key)
@@ -161,6 +163,19 @@ func VerifyFunc(ld *Loader, pkg *Pkg, key string) (res *FuncResult) {
 		}
 	}()
 	x.run()
+	if ct.Havoc {
+		// a havoc contract with promises: callers rely on nothing but the
+		// promised clauses, and only those are checked against the body (the
+		// body's own safety obligations belong to no contract here)
+		var keep []*Obligation
+		for _, o := range vc.obls {
+			switch o.Kind {
+			case "post", "return", "subset", "exists":
+				keep = append(keep, o)
+			}
+		}
+		vc.obls = keep
+	}
 	res.Obls = vc.obls
 	res.Final = x.final
 	return res
